@@ -230,6 +230,10 @@ def replay_emitted(rep, records, deviations_open, sample=None, seed=0, what='sce
     cases = vmrun.run_scenarios(scns)
     good = []
     for s, summ, c in zip(scns, sums, cases):
+        if c.get('timeout'):
+            rep.violation('%s: the evaluation did not finish within %d s under its op budget (cost not bounded by the budget): %r' %
+                          (what, vmrun.SCENARIO_TIMEOUT_S, c.get('sources')), {'calls': c.get('sources')})
+            continue
         if 'harness_error' in c:
             rep.machinery.append('replay harness error: ' + c['harness_error'])
             continue
@@ -337,6 +341,25 @@ def judge_cases(rep, cases, deviations_open, what='scenario', attribute=None, si
                           {'case': slim(c), 'at_event': l, 'clause': v.get('why'), 'observed_event': obs,
                            'specified_events': v.get('spec')})
     return verdicts
+
+
+def run_family(rep, scns, what='scenario'):
+    """Run scenarios on the code under test; nothing is dropped silently: a scenario that did not finish within the
+    wall-clock guard is a violation (the evaluation is not bounded by its op budget), any other failure to record a
+    scenario is a failure of the machinery."""
+    out = []
+    nerr = 0
+    for c in vmrun.run_scenarios(scns):
+        if c.get('timeout'):
+            rep.violation('%s: the evaluation did not finish within %d s under its op budget (cost not bounded by the budget): %r' %
+                          (what, vmrun.SCENARIO_TIMEOUT_S, c.get('sources')), {'calls': c.get('sources')})
+        elif 'harness_error' in c:
+            nerr += 1
+            if nerr <= 3:
+                rep.machinery.append('%s could not be recorded: %s' % (what, c['harness_error']))
+        else:
+            out.append(c)
+    return out
 
 
 def finding_text(dev):
